@@ -11,6 +11,11 @@ claimed = {
    note="Assumed: go/ssa semantics, the three solvers, govc; assumed contracts of encoding/binary, io, bytes, fmt, reflect.TypeOf/MakeSlice, lz4/snappy block functions; parameters (readers, headers, codecs) non-nil; sizes < 2^47; callees without contract are havocked over their static mod-set; reflective injectors (datacodec containers as Go values) and stack size are not covered.",
    technique="contract-based deductive verification: weakest-precondition style VC generation over go/ssa, discharged by z3/cvc5",
    design="DESIGN.md §4 C04, §2.8"),
+ "C13": dict(
+   text="Proof for all 2^64 (2^32, ...) arguments: each of the 63 narrowing helpers of conversions.go and addExact returns an error exactly when the value is out of the target range and otherwise a mathematically equal result; each integer and float dispatcher (convertTo/convertFrom Int8..Int64, Float32/64, date/time/timestamp fall-through) delivers, for every one of the ten Go integer representations and their pointers (forallT expansion), an equal value or an error; in addition every value-changing integer conversion instruction in these functions and in readDuration carries a 'narrow' obligation, so a bare cast added later fails. Tests sample a few values per pair.",
+   note="Assumed: strconv.ParseInt/FormatInt, math/big.Int (modelled as 256-bit integers), big.Float accuracy, go/ssa, solvers, govc; int is 64 bits. floorDiv, floorMod and multiplyExact are not under proof (64x64-bit products/divisions undecided by all three solvers) and are listed as such in evidence; completeness (error only when out of range) is proved for integer representations only.",
+   technique="contract-based deductive verification: pattern contracts over go/ssa VCs (bit-vector and floating-point SMT), counterexamples replayed on the real code",
+   design="DESIGN.md §4 C13"),
 }
 
 not_applicable = {
